@@ -3,6 +3,7 @@ package spec
 import (
 	"go/ast"
 	"go/token"
+	"go/types"
 	"regexp"
 	"sort"
 	"strings"
@@ -68,6 +69,15 @@ func runC16(r *an.Run) {
 				for _, w := range ws {
 					as := w.Node.(*ast.AssignStmt)
 					if as.Tok == token.DEFINE {
+						// `paymentFailed := reason != nil` is the same writer as
+						// `if reason != nil { paymentFailed = true }` over the
+						// initial false: the flag is the comparison itself,
+						// taken unconditionally
+						if name == "paymentFailed" && len(as.Lhs) == 1 && len(as.Rhs) == 1 && c16IsNotNilOf(f, as.Rhs[0], an.Param(1)) {
+							k++
+							o.Site("flag %s is defined as %s", name, an.Text(as.Rhs[0]))
+							onlyGuards(o, f, w, nil, "flag "+name)
+						}
 						continue
 					}
 					k++
@@ -196,10 +206,30 @@ func runC16(r *an.Run) {
 			}
 			for name, tbl := range want {
 				f := p.Func(pd + "PaymentStatus." + name)
+				// the exits are read off the graph under the valuation
+				// `ps == st` (every test of the receiver against a status
+				// constant is decided, whatever it is written as: its own
+				// case, one entry of a merged case list, an ==/!= in an if);
+				// any other condition is left open, so that an exit that
+				// depends on something else counts for every status
+				known := map[string]bool{}
+				for st := range tbl {
+					known[st] = true
+				}
+				under := func(st string) an.Decide {
+					return func(fn *an.Func, v *flow.Vertex) (bool, bool) {
+						c, eq, ok := c16RecvStatusTest(fn, v)
+						if !ok || !known[c] {
+							return false, false
+						}
+						return (c == st) == eq, true
+					}
+				}
 				for st, allow := range tbl {
 					n := 0
+					reach := f.ReachUnder(under(st))
 					for _, s := range f.Returns() {
-						if ok, _ := f.Guarded(s, an.Cmp(an.Recv(), an.EQ, an.PkgVar("payments/db", st), "")); !ok {
+						if !reach[s.V] {
 							continue
 						}
 						n++
@@ -213,18 +243,14 @@ func runC16(r *an.Run) {
 						o.FailAt(f.ID+"#case-"+st, f.Where(f.Body.Pos()), "%s has %d exits for %s, expected one", name, n, st)
 					}
 				}
-				// default is an error
+				// default is an error: no nil exit is reachable for a value
+				// that is none of the four statuses
+				reach := f.ReachUnder(under(""))
 				for _, s := range f.Returns() {
 					if !an.IsNilIdent(f.Info(), s.Node.(*ast.ReturnStmt).Results[0]) {
 						continue
 					}
-					k := 0
-					for st := range tbl {
-						if ok, _ := f.Guarded(s, an.Cmp(an.Recv(), an.EQ, an.PkgVar("payments/db", st), "")); ok {
-							k++
-						}
-					}
-					if k == 0 {
+					if reach[s.V] {
 						o.FailAt(f.ID+"#default-nil", s.Where(), "%s returns nil outside the four known statuses", name)
 					}
 				}
@@ -759,7 +785,19 @@ func runC16(r *an.Run) {
 						key  string
 						want bool // nil wanted?
 					}{{"htlcAttemptInfoKey", false}, {"htlcFailInfoKey", true}, {"htlcSettleInfoKey", true}} {
-						guarded(o, lf, s, an.IsNil(an.CallNamed("Get", nil, canonTerm(`htlcBucketKey\(`+pd+k.key+`, `)), k.want, "htlcsBucket.Get("+k.key+") nil="+map[bool]string{true: "yes", false: "no"}[k.want]))
+						fact := an.IsNil(an.CallNamed("Get", nil, canonTerm(`htlcBucketKey\(`+pd+k.key+`, `)), k.want, "htlcsBucket.Get("+k.key+") nil="+map[bool]string{true: "yes", false: "no"}[k.want])
+						// where the lookups were moved into a helper that
+						// answers with a sentinel (`return ErrAttemptAlreadyFailed`)
+						// the inlined code reads `err = ErrAttemptAlreadyFailed;
+						// if err != nil { return err }`: the write is not
+						// dominated by the test syntactically, but no path on
+						// which the error variable holds a value that is never
+						// nil takes the `err == nil` branch
+						if ok, _ := lf.Guarded(s, fact); !ok && len(lf.EdgesOf(fact)) > 0 && !c16ReachableAvoiding(p, lf, s, fact) {
+							o.Site("%s below [%s] on every path on which the error a failed test assigns is not nil", s.String(), fact.Desc)
+							continue
+						}
+						guarded(o, lf, s, fact)
 					}
 				}
 			}
@@ -1039,4 +1077,253 @@ func definingCalls(f *an.Func, id *ast.Ident) []string {
 		return nil
 	}
 	return keys(set)
+}
+
+// c16IsNotNilOf: e is `t != nil` (or `nil != t`) for the term t.
+func c16IsNotNilOf(f *an.Func, e ast.Expr, t an.Term) bool {
+	be, ok := ast.Unparen(e).(*ast.BinaryExpr)
+	if !ok || be.Op != token.NEQ {
+		return false
+	}
+	x, y := ast.Unparen(be.X), ast.Unparen(be.Y)
+	if an.IsNilIdent(f.Info(), x) {
+		x, y = y, x
+	}
+	return an.IsNilIdent(f.Info(), y) && an.Match(f, t, x)
+}
+
+// c16RecvStatusTest reads a vertex as a test of the receiver against a
+// package-level constant: the entry `C` of `switch recv { case ..., C, ...: }`
+// or the atom `recv == C` / `recv != C` (operands in either order) of a
+// condition.  It returns the constant's name and whether the true edge means
+// equality.
+func c16RecvStatusTest(f *an.Func, v *flow.Vertex) (string, bool, bool) {
+	constName := func(e ast.Expr) (string, bool) {
+		var id *ast.Ident
+		switch x := ast.Unparen(e).(type) {
+		case *ast.Ident:
+			id = x
+		case *ast.SelectorExpr:
+			id = x.Sel
+		default:
+			return "", false
+		}
+		if c, ok := f.Info().Uses[id].(*types.Const); ok && c.Parent() == c.Pkg().Scope() {
+			return c.Name(), true
+		}
+		return "", false
+	}
+	switch v.Kind {
+	case flow.KCase:
+		ce, ok := v.Node.(ast.Expr)
+		if !ok || v.Tag == nil || !an.Match(f, an.Recv(), v.Tag) {
+			return "", false, false
+		}
+		if c, ok := constName(ce); ok {
+			return c, true, true
+		}
+	case flow.KCond:
+		e, ok := v.Node.(ast.Expr)
+		if !ok {
+			return "", false, false
+		}
+		be, ok := ast.Unparen(e).(*ast.BinaryExpr)
+		if !ok || (be.Op != token.EQL && be.Op != token.NEQ) {
+			return "", false, false
+		}
+		x, y := be.X, be.Y
+		if !an.Match(f, an.Recv(), x) {
+			x, y = y, x
+		}
+		if !an.Match(f, an.Recv(), x) {
+			return "", false, false
+		}
+		if c, ok := constName(y); ok {
+			return c, be.Op == token.EQL, true
+		}
+	}
+	return "", false, false
+}
+
+// c16NeverNilError: e is an expression whose value is an error that is never
+// nil: fmt.Errorf(...) / errors.New(...), or a package-level variable of the
+// analysed program that is initialised by one of those and assigned nowhere
+// (nor has its address taken) in its package.
+func c16NeverNilError(p *an.Prog, f *an.Func, e ast.Expr) bool {
+	info := f.Info()
+	isCtor := func(e ast.Expr) bool {
+		c, ok := ast.Unparen(e).(*ast.CallExpr)
+		if !ok {
+			return false
+		}
+		id := an.CalleeID(info, c)
+		return id == "fmt.Errorf" || id == "errors.New"
+	}
+	if isCtor(e) {
+		return true
+	}
+	var id *ast.Ident
+	switch x := ast.Unparen(e).(type) {
+	case *ast.Ident:
+		id = x
+	case *ast.SelectorExpr:
+		id = x.Sel
+	default:
+		return false
+	}
+	v, ok := info.Uses[id].(*types.Var)
+	if !ok || v.Pkg() == nil || v.Parent() != v.Pkg().Scope() || v.Pkg() != f.Pkg.Types {
+		return false
+	}
+	initialised, written := false, false
+	for _, file := range f.Pkg.Syntax {
+		ast.Inspect(file, func(n ast.Node) bool {
+			switch x := n.(type) {
+			case *ast.ValueSpec:
+				for i, nm := range x.Names {
+					if f.Pkg.TypesInfo.Defs[nm] == v && len(x.Values) == len(x.Names) {
+						c, ok := ast.Unparen(x.Values[i]).(*ast.CallExpr)
+						if ok {
+							cid := an.CalleeID(f.Pkg.TypesInfo, c)
+							initialised = cid == "fmt.Errorf" || cid == "errors.New"
+						}
+					}
+				}
+			case *ast.AssignStmt:
+				for _, l := range x.Lhs {
+					if lid, ok := ast.Unparen(l).(*ast.Ident); ok && f.Pkg.TypesInfo.Uses[lid] == v {
+						written = true
+					}
+				}
+			case *ast.UnaryExpr:
+				if lid, ok := ast.Unparen(x.X).(*ast.Ident); ok && x.Op == token.AND && f.Pkg.TypesInfo.Uses[lid] == v {
+					written = true
+				}
+			}
+			return true
+		})
+	}
+	return initialised && !written
+}
+
+// c16ReachableAvoiding: can site be reached from the entry of f without
+// traversing an edge that establishes fact, on a path that is feasible with
+// respect to one piece of state: the local that was last assigned a never-nil
+// error (c16NeverNilError) and not written since is not nil, so a test of it
+// against nil takes its non-nil branch.  Everything else is left open (both
+// branches), so the answer errs towards "reachable".
+func c16ReachableAvoiding(p *an.Prog, f *an.Func, site an.Site, fact an.Fact) bool {
+	info := f.Info()
+	cut := f.EdgesOf(fact)
+	objOf := func(e ast.Expr) types.Object {
+		id, ok := ast.Unparen(e).(*ast.Ident)
+		if !ok {
+			return nil
+		}
+		if o := info.Defs[id]; o != nil {
+			return o
+		}
+		return info.Uses[id]
+	}
+	// state after leaving v, given the state on entering it
+	step := func(v *flow.Vertex, st types.Object) types.Object {
+		if as, ok := v.Node.(*ast.AssignStmt); ok && (as.Tok == token.ASSIGN || as.Tok == token.DEFINE) && len(as.Lhs) == len(as.Rhs) {
+			for i, l := range as.Lhs {
+				o := objOf(l)
+				if o == nil {
+					continue
+				}
+				if _, isVar := o.(*types.Var); isVar && c16NeverNilError(p, f, as.Rhs[i]) {
+					st = o
+				} else if o == st {
+					st = nil
+				}
+			}
+			// a closure or address-of on the right can still write it
+			for _, r := range as.Rhs {
+				ast.Inspect(r, func(n ast.Node) bool {
+					switch x := n.(type) {
+					case *ast.FuncLit:
+						st = nil
+					case *ast.UnaryExpr:
+						if x.Op == token.AND {
+							st = nil
+						}
+					}
+					return true
+				})
+			}
+			return st
+		}
+		if st == nil || v.Kind == flow.KCond || v.Kind == flow.KCase || v.Kind == flow.KJoin {
+			return st
+		}
+		// any other vertex that mentions the variable outside a plain read
+		// in a call-free expression: give the knowledge up
+		mentions := false
+		v.Inspect(true, func(n ast.Node) bool {
+			if id, ok := n.(*ast.Ident); ok && (info.Uses[id] == st || info.Defs[id] == st) {
+				mentions = true
+			}
+			return true
+		})
+		if mentions {
+			if _, isRet := v.Node.(*ast.ReturnStmt); !isRet {
+				return nil
+			}
+		}
+		return st
+	}
+	// the branch a nil test of the known variable takes
+	decide := func(v *flow.Vertex, st types.Object) (bool, bool) {
+		if st == nil || v.Kind != flow.KCond {
+			return false, false
+		}
+		e, ok := v.Node.(ast.Expr)
+		if !ok {
+			return false, false
+		}
+		be, ok := ast.Unparen(e).(*ast.BinaryExpr)
+		if !ok || (be.Op != token.EQL && be.Op != token.NEQ) {
+			return false, false
+		}
+		x, y := be.X, be.Y
+		if an.IsNilIdent(info, x) {
+			x, y = y, x
+		}
+		if !an.IsNilIdent(info, y) || objOf(x) != st {
+			return false, false
+		}
+		return be.Op == token.NEQ, true
+	}
+	type key struct {
+		v  *flow.Vertex
+		st types.Object
+	}
+	start := key{f.Graph().Entry, nil}
+	seen := map[key]bool{start: true}
+	work := []key{start}
+	for len(work) > 0 {
+		k := work[len(work)-1]
+		work = work[:len(work)-1]
+		if k.v == site.V {
+			return true
+		}
+		val, known := decide(k.v, k.st)
+		next := step(k.v, k.st)
+		for _, e := range k.v.Out {
+			if cut[e] {
+				continue
+			}
+			if known && (e.Kind == flow.ETrue || e.Kind == flow.EFalse) && (e.Kind == flow.ETrue) != val {
+				continue
+			}
+			nk := key{e.To, next}
+			if !seen[nk] {
+				seen[nk] = true
+				work = append(work, nk)
+			}
+		}
+	}
+	return false
 }
